@@ -368,19 +368,25 @@ def _thread_returns(c, first_new, cont, dest, adt_discr):
             return v
         return 1 - v                    # None(0) -> Break(1), Some(1) -> Continue(0)
 
+    payload = [None]
+
     def value_of(blk):
-        """(discriminant / constant the block leaves in dest, the block it goes on to), or (None, None)"""
+        """(discriminant / constant the block leaves in dest, the block it goes on to), or (None, None); payload[0] = the operands of the variant built"""
         v = None
+        payload[0] = None
         tt = blk["term"]
         for st in blk["stmts"]:
             if st["place"]["l"] == dest["l"]:
                 if st["place"]["proj"]:
                     v = None
+                    payload[0] = None
                     continue
                 rv = st["rv"]
                 v = None
+                payload[0] = None
                 if rv["k"] == "agg" and isinstance(rv["kind"], dict) and "vi" in rv["kind"] and (discr_test or try_test):
                     v = adt_discr(rv["kind"].get("adt"), rv["kind"]["vi"])
+                    payload[0] = (rv["kind"]["vi"], rv["ops"])
                 elif rv["k"] == "use" and "const" in rv["a"] and rv["a"]["const"].get("int") is not None and flag_test:
                     v = int(rv["a"]["const"]["int"])
         if tt["k"] == "goto":
@@ -458,6 +464,21 @@ def _thread_returns(c, first_new, cont, dest, adt_discr):
         if chain is None:
             continue
         tgt = arms.get(arm_of(v), sw["otherwise"])
+        # a nested pattern on a constant payload (`Break(false) => .., Break(true) => ..`): the arm's own test of that field is decided as well
+        for _ in range(3):
+            tb = c["blocks"][tgt]
+            t2 = tb["term"]
+            if payload[0] is None or discr_test is False or tb["stmts"] or t2["k"] != "switch":
+                break
+            op2 = t2["op"].get("copy") or t2["op"].get("move")
+            if (op2 is None or op2["l"] != dest["l"] or len(op2["proj"]) != 2 or not isinstance(op2["proj"][0], dict) or op2["proj"][0].get("vi") != payload[0][0]
+                    or not isinstance(op2["proj"][1], dict) or "i" not in op2["proj"][1]):
+                break
+            k = op2["proj"][1]["i"]
+            opk = payload[0][1][k] if k < len(payload[0][1]) else None
+            if not (isinstance(opk, dict) and "const" in opk and opk["const"].get("int") is not None):
+                break
+            tgt = {int(a_): b_ for a_, b_ in t2["arms"]}.get(int(opk["const"]["int"]), t2["otherwise"])
         own = own_tail(tgt)
         if own is not None:
             tgt = own
@@ -530,12 +551,15 @@ def splice_new_helpers(d, reference):
         return []
     bodies = {b["path"]: b for b in d["bodies"]}
     adts = {a["path"]: a for a in d.get("adts", [])}
+    for e_ in d.get("ext_enums", []):
+        adts.setdefault(e_["path"], e_)      # enums of other crates that the bodies use (ControlFlow, Ordering, Either, ..)
 
     def adt_discr(path, vi):
         a = adts.get(path)
         if a is not None and vi < len(a["variants"]) and a["variants"][vi].get("discr") is not None:
             return int(a["variants"][vi]["discr"])
-        if path in ("std::option::Option", "core::option::Option", "std::result::Result", "core::result::Result"):
+        if path in ("std::option::Option", "core::option::Option", "std::result::Result", "core::result::Result", "std::ops::ControlFlow", "core::ops::ControlFlow",
+                    "core::ops::control_flow::ControlFlow"):
             return vi
         return None
 
